@@ -35,7 +35,7 @@ def subsets(xs):
 def check_doc(acc, headers, hist, pre=()):
     m = X.build(headers, hist, pre, close=True)
     text = m.text()
-    case = {'text': text, 'headers': headers}
+    case = {'text': text, 'headers': headers, 'hist': hist, 'pre': list(pre)}
     acc.count('evaluations')
     acc.state(digest(text))
     try:
@@ -142,16 +142,6 @@ def run(ctx):
 
 
 def replay(case):
-    # rebuild a verbatim model from the text (acceptor direction)
-    from .c02 import replay as _r  # noqa  (shares the text->model reconstruction)
-    from ..model import Model
-    text = case['text']
-    lines = [l for l in text.split('\n') if l]
-    m = Model(lines[0].split('\t'))
-    for l in lines[1:]:
-        m.add([A.V(c, 'BARLINES' if c.startswith('=') else None, ('=' + c.lstrip('=0123456789')) if c.startswith('=') and not c.startswith('==') else c)
-               if not (c in A.NULLS) else (A.NULL_D if c == '.' else A.NULL_I) for c in l.split('\t')])
-    hist = [[c.spec for c in r] for r in m.crows()[1:-1]] if m.width() == 0 else [[c.spec for c in r] for r in m.crows()[1:]]
     acc = Acc()
-    check_doc(acc, m.headers, hist)
+    check_doc(acc, case['headers'], X.hist_from_json(case['hist']), tuple(case.get('pre', ())))
     return acc.viol
